@@ -101,7 +101,7 @@ pub(crate) mod verif_swm {
 
     /// ReadStat::sum / qps at the clock's time; qps == sum as f64 / (interval_ms as f64 / 1000.0), bit-exact
     fn body_read_stat_sum_qps<const N: usize>(sh: u32, sc: u32, q: u32) {
-        let f = fixture::<N>(sh, sc, q, 1u64 << 16);
+        let f = fixture::<N>(sh, sc, q, 15);
         vs::set_clock_ms(f.now);
         let e = any_event();
         let want = f.expect_sum(e, f.kn);
@@ -117,7 +117,7 @@ pub(crate) mod verif_swm {
 
     /// ReadStat::qps_previous: the rate of the window ending one metric bucket earlier
     fn body_read_stat_qps_previous<const N: usize>(sh: u32, sc: u32, q: u32) {
-        let f = fixture::<N>(sh, sc, q, 1u64 << 16);
+        let f = fixture::<N>(sh, sc, q, 15);
         vs::set_clock_ms(f.now);
         let e = any_event();
         let back = (q / sc) as u64; // metric bucket length in array buckets
